@@ -304,6 +304,26 @@ fn main() {
     rep.rule("cases = (type, constructor, axis from the normalised integer directions, angle from the grid on [-4pi,4pi] + neighbourhoods of 0, pi/2, pi, 2pi + huge angles) and (type, EulerRot variant, angle triple from the grid / the gimbal family with the middle angle at the singular value +- {0,1e-7..1e-2}); reference = f64 Rodrigues matrix / product of single-axis rotations in the order spelled by the variant name; all types compared with the same reference; extraction checks rebuild the rotation from the returned parameters with tolerance K*eps/max(distance from singularity, eps); every case is non-trivial");
     axis_angle!(rep, f32, Vec3, Vec2, [Quat, Mat3, Mat3A, Mat4, Affine3A], [Mat2, Mat3, Mat3A, Affine2], [Quat]);
     axis_angle!(rep, f64, DVec3, DVec2, [DQuat, DMat3, DMat4, DAffine3], [DMat2, DMat3, DAffine2], [DQuat]);
+    // the scaled 2-D rotation constructors turn the same way: from_scale_angle(s, a) = from_angle(a) * diag(s)
+    {
+        let angles = angle_grid(rep.thorough());
+        let ar = &angles;
+        rep.sweep(&format!("2-D/from_scale_angle = from_angle * scale/{} angles x 3 scales", angles.len()), angles.len() as u64 * 3, |idx, acc| {
+            let ang = ar[(idx % ar.len() as u64) as usize];
+            let sc = [[1.0f64, 1.0], [2.0, 0.5], [-1.5, 3.0]][(idx / ar.len() as u64) as usize];
+            acc.eval(true, idx);
+            let (s32, c32) = ((ang as f32) as f64).sin_cos();
+            let g = Mat2::from_scale_angle(Vec2::new(sc[0] as f32, sc[1] as f32), ang as f32).to_cols_array();
+            let w = [c32 * sc[0], s32 * sc[0], -s32 * sc[1], c32 * sc[1]];
+            env_vec(acc, "Mat2::from_scale_angle", &g.map(|x| x as f64), &w, &[8.0 * f32::EPSILON as f64 * 3.0], &|| format!("scale={:?} angle={:e}", sc, ang));
+            let (s64, c64) = ang.sin_cos();
+            let g = DMat2::from_scale_angle(DVec2::new(sc[0], sc[1]), ang).to_cols_array();
+            let w = [c64 * sc[0], s64 * sc[0], -s64 * sc[1], c64 * sc[1]];
+            env_vec(acc, "DMat2::from_scale_angle", &g, &w, &[8.0 * f64::EPSILON * 3.0], &|| format!("scale={:?} angle={:e}", sc, ang));
+            let g3 = Mat3::from_scale_angle_translation(Vec2::new(sc[0] as f32, sc[1] as f32), ang as f32, Vec2::new(0.5, -2.0)).to_cols_array();
+            env_vec(acc, "Mat3::from_scale_angle_translation", &[g3[0] as f64, g3[1] as f64, g3[3] as f64, g3[4] as f64], &[c32 * sc[0], s32 * sc[0], -s32 * sc[1], c32 * sc[1]], &[8.0 * f32::EPSILON as f64 * 3.0], &|| format!("scale={:?} angle={:e}", sc, ang));
+        });
+    }
     euler!(rep, f32, [Quat, Mat3, Mat3A, Mat4], [Mat3, Mat3A, Mat4], Quat, Vec3);
     euler!(rep, f64, [DQuat, DMat3, DMat4], [DMat3, DMat4], DQuat, DVec3);
     rep.sample(json!({"constructor": "Mat3A::from_euler", "order": "YZXEx", "angles": [0.011, 1.5708963, -2.2], "reference": "Rx(c)*Rz(b)*Ry(a) (extrinsic: reversed)"}));
